@@ -120,6 +120,9 @@ for _k, _v in EXTRA5.items():
 EXTRA6 = {'C01': ' Hosts with two or three holes whose bounding boxes overlap against every point / short line of a 15x15 window; touching rings against every simple 4- to 6-member MultiLineString of a pool with segments crossing at the touch point. Collection-wrapped Multi* with an empty part; line strings with a repeated coordinate.', 'C02': ' The same hosts at every half-step point (coordinate_position / intersects / contains in three wrappings).', 'C03': ' The public triangle_winding_order helper in every ulp window.', 'C04': ' unary_union of the same collections far from the origin (f64 at 2^30, f32 at UTM magnitudes).', 'C05': ' i64 rings at 2^60 and i128 rings at 2^100; MultiPolygon::orient in both directions.', 'C08': ' f32 points of very different magnitude against the exact hull of the f32 values.', 'C10': ' Islands inscribed in holes in the stitch stage.', 'C13': ' One- and two-coordinate line strings and rings in the single-geometry stages.', 'C14': ' MultiPolygon members with a non-finite coordinate next to sound members.', 'C15': ' f32 twins of the ratio forms and of the deprecated form at the clamped ends.', 'C16': ' Line strings of up to 4097 (thorough 65537) coordinates; unit, 1 km and Neptune-sized spheres for nearly coincident points; polar partners off the lattice.'}
 for _k, _v in EXTRA6.items():
     EXTRA[_k] = EXTRA.get(_k, "") + _v
+EXTRA7 = {'C02': ' Axis-parallel segments at the ends of the numeric ranges (i16 / i32 / i64 / tiny f64 / tiny f32); every fifth pair also through the mixed concrete x Geometry-enum impls.', 'C05': ' Long rings (every side cut into up to 1000, thorough 20000, pieces).', 'C06': ' Long rings and paths with exactly known centroids.', 'C11': ' Three almost-T-junction configurations with non-dyadic coordinates as ulp-window bases.', 'C12': ' Axis-parallel segments of length 2^513 (f32 2^65).', 'C14': ' Rects with infinite ordinates.', 'C19': ' try_map_coords shows the coordinates in traversal order; MultiPolygon with an empty first member.', 'C20': ' Monotone point location fresh vs as the second query (all ordered pairs of half-step points); concave hull of eight 9-point sets alone vs right after each other set.'}
+for _k, _v in EXTRA7.items():
+    EXTRA[_k] = EXTRA.get(_k, "") + _v
 EXTRA["C11"] = " Every lattice case is repeated at the exact scales 2^-30 and 2^30 (bit-identical answer after scaling back) and in f32."
 EXTRA["C16"] = " points_along_line against distance / point_at_distance_between of the same metric space; a Neptune-sized HaversineMeasure."
 
